@@ -3,8 +3,29 @@
    dg <payloadHex> <ipHex> <port> | tick <n> | consume <0|1> | resume | poll | cancel | dump
    sync <toFindHex|none> <hasStaticIp 0|1>  /  sd <payloadHex> <ipHex> <port>      the threaded twin's `_on_discovered` -/
 import GeckoModel.Model.Discovery
-import GeckoModel.Model.DriverUtil
-open GeckoModel.Discovery Drv
+open GeckoModel.Discovery
+
+/- hex helpers (same conventions as Model/DriverUtil.lean; kept local so that the driver depends only on this property's modules) -/
+def hexDigit (c : Char) : Option Nat :=
+  if '0' ≤ c ∧ c ≤ '9' then some (c.toNat - 48)
+  else if 'a' ≤ c ∧ c ≤ 'f' then some (c.toNat - 87)
+  else if 'A' ≤ c ∧ c ≤ 'F' then some (c.toNat - 55) else none
+
+partial def unhexAux : List Char → List UInt8 → Option (List UInt8)
+  | [], acc => some acc.reverse
+  | [_], _ => none
+  | a :: b :: rest, acc =>
+    match hexDigit a, hexDigit b with
+    | some x, some y => unhexAux rest (UInt8.ofNat (x * 16 + y) :: acc)
+    | _, _ => none
+
+/-- "-" is the empty byte string -/
+def unhex (s : String) : Option (List UInt8) := if s == "-" then some [] else unhexAux s.toList []
+
+def hexNib (n : Nat) : Char := if n < 10 then Char.ofNat (48 + n) else Char.ofNat (87 + n)
+
+def hex (bs : List UInt8) : String :=
+  if bs.isEmpty then "-" else String.ofList (bs.flatMap fun b => [hexNib (b.toNat / 16), hexNib (b.toNat % 16)])
 
 structure St where
   cfg : DCfg := ⟨0, 0⟩
